@@ -41,6 +41,10 @@ fn run(args: &[String]) -> i32 {
             props::replay(path)
         }
         Some("--serve") => props::c16::serve(),
+        Some("c15-scan") => {
+            // complete scan of one unary C15 function: prints every input whose error exceeds the bound
+            props::c15::scan(args.get(2).map(|s| s.as_str()).unwrap_or("tan"))
+        }
         Some(p) => {
             let tier = match args.get(2).map(|s| s.as_str()).or(std::env::var("VERIF_TIER").ok().as_deref().map(|_| "")).unwrap_or("quick") {
                 "thorough" => Tier::Thorough,
